@@ -26,6 +26,7 @@ import (
 	"fmt"
 	"io/ioutil"
 	"net"
+	"net/url"
 	"os"
 	"path/filepath"
 	"reflect"
@@ -215,6 +216,7 @@ type rtResult struct {
 	Items0, Items1      []item        // named items of load j and of load (dump (load j))
 	Cfg0, Cfg1          v2.MOSNConfig // load j and load (dump (load j)), normalised
 	AltWhy              string        // the hand-over / DumpConfig bytes load to another configuration than the first dump
+	AdminWhy            string        // an admin config_dump changed what transferConfig persists
 }
 
 // item: a cluster, a router or a virtual host of a loaded configuration
@@ -346,6 +348,41 @@ func roundTrip(path, dir string) (*rtResult, string) {
 		}
 		if w := same("DumpConfig"+ext, pp); w != "" {
 			return res, w
+		}
+	}
+	// the admin dump must not touch what is persisted: every query variant of /api/v1/config_dump (all names), then the
+	// persisted form again - load -> admin dumps -> persisted dump must be load -> persisted dump
+	adminRound++
+	qs := adminQueries()
+	if adminRound%4 != 0 { // every name for one document in four; the un-named variants for all
+		qs = qs[:5]
+	}
+	c1 := ""
+	for qi, q := range qs {
+		adminGet("GET", q)
+		// (the persisted form is compared after every endpoint for one document in four, after the last one otherwise)
+		if adminRound%4 != 0 && qi != len(qs)-1 {
+			continue
+		}
+		dA, err := configmanager.VerifTransferConfig()
+		if err != nil {
+			res.AdminWhy = "admin-dump-changes-persisted-config:" + q + ":transferConfig fails afterwards"
+			break
+		}
+		if c1 == "" {
+			c1 = canonJSON(d1)
+		}
+		if a, b := c1, canonJSON(dA); a != b {
+			kind := strings.SplitN(strings.TrimPrefix(q, "?"), "=", 2)[0]
+			if kind == "" {
+				kind = "full"
+			}
+			if adminRound%4 != 0 {
+				kind = "some-endpoint"
+			}
+			d := jsonDiff(a, b)
+			res.AdminWhy = fmt.Sprintf("admin-dump-changes-persisted-config:%s:%s|after GET /api/v1/config_dump%s the persisted form differs at %s", kind, sigPath(d), q, d)
+			break
 		}
 	}
 	configmanager.Reset()
@@ -756,12 +793,16 @@ func c19(args []string) int {
 				run.Sum.Distribution["items:path-mode:"+it.Kind+":name-len-"+lenBucket(len(it.Name))]++
 			}
 		}
+		if res.AdminWhy != "" {
+			parts := strings.SplitN(res.AdminWhy, "|", 2)
+			run.Fail(parts[0], fmt.Sprintf("%s %s: %s", kind, name, strings.Join(parts, ": ")), replay)
+		}
 		if res.AltWhy != "" && !lostAny {
 			run.Fail(strings.Join(strings.SplitN(res.AltWhy, ":", 3)[:2], ":"), fmt.Sprintf("%s %s: %s", kind, name, res.AltWhy), replay)
 		}
 		if res.Norm1 != res.Norm2 && !lostAny {
 			d := jsonDiff(res.Norm1, res.Norm2)
-			run.Fail("second-reload-differs:"+pathClass(d), fmt.Sprintf("%s %s: load of the second dump differs from load of the first at %s", kind, name, d), replay)
+			run.Fail("second-reload-differs:"+sigPath(d), fmt.Sprintf("%s %s: load of the second dump differs from load of the first at %s", kind, name, d), replay)
 		}
 		if res.Norm0 == res.Norm1 && !lostAny {
 			// the two loaded configurations themselves (not their re-serialisation, which goes through the same marshalers):
@@ -812,7 +853,7 @@ func c19(args []string) int {
 	respellRng = r
 	defer func() { respellRng = nil }()
 	for i := 0; i < nGen; i++ {
-		f := &filler{r: r, maxDepth: 9, tmp: tmp, dirPct: 30, noTLS: false, hostile: true}
+		f := &filler{r: r, maxDepth: 9, tmp: tmp, dirPct: 30, noTLS: false, hostile: true, blobKeys: true}
 		b := genConfig(f, r, tmp, i)
 		if b == nil {
 			run.Sum.Distribution["gen:marshal-error"]++
@@ -2062,3 +2103,30 @@ func respellDurations(doc []byte) []byte {
 	}
 	return out
 }
+
+// adminQueries: every query variant of the admin config dump for the names the effective config holds
+func adminQueries() []string {
+	qs := []string{"", "?mosnconfig", "?allrouters", "?allclusters", "?alllisteners"}
+	for _, fk := range [][2]string{{"Listener", "listener"}, {"Cluster", "cluster"}, {"Routers", "router"}} {
+		m := confField(fk[0])
+		if !m.IsValid() || m.Kind() != reflect.Map {
+			continue
+		}
+		var names []string
+		for _, k := range m.MapKeys() {
+			names = append(names, k.String())
+		}
+		sort.Strings(names)
+		for _, n := range names {
+			qs = append(qs, "?"+fk[1]+"="+url.QueryEscape(n))
+		}
+	}
+	return qs
+}
+
+var adminRound int
+
+var genKeyRe = regexp.MustCompile(`\.k[0-9]+`)
+
+// sigPath: a document path as part of a signature - indices stripped, generated member names (k<n>) replaced
+func sigPath(d string) string { return genKeyRe.ReplaceAllString(pathClass(d), ".{key}") }
